@@ -7,6 +7,7 @@ import NPModel.Refine.Views
 import NPModel.Refine.Samples
 import NPModel.Refine.Observers
 import NPModel.Refine.FieldSubsets
+import NPModel.Refine.ViewTrips2
 namespace NP.C03
 open NP
 variable {α : Type}
@@ -131,5 +132,15 @@ theorem to_flat_of_named_fields (index : List Label) (c : PCol α) (h : c.Clean)
     (fs : List String) (hne : fs ≠ []) (hall : ∀ f ∈ fs, c.ty.any (·.1 == f) = true) :
     NSeries.toFlat { index := index, col := c } (some fs) = Spec.toFlat index c.abs (some fs) :=
   toFlat_fields_refines index c h hidx fs hne hall
+
+/-- **The list view** (`to_lists()`), series level: on `Clean` storage of any chunking the frame of lists
+    has one column per declared field, in declared order and under the field's name, and the i-th list of
+    column `f` is the list field `f` has in row i of the element view (no elements for a missing row) —
+    exactly one list per row. -/
+theorem to_lists_of_rows (s : NSeries α) (h : s.col.Clean) (hne : s.col.chunks ≠ []) :
+    ∃ df, s.toLists none = .ok df ∧ df.index = s.index ∧ df.cols.map (·.1) = s.col.ty.map (·.1) ∧
+      ∀ col ∈ df.cols, col.2.2.map (fun r => r.getD []) = Spec.fieldLists s.col.rows col.1 ∧
+        col.2.2.length = s.col.len :=
+  toLists_spec s h hne
 
 end NP.C03
